@@ -81,6 +81,28 @@ func (st *State) stdlibSpecial(fn *types.Func, recv *Val, args []Val, call *ast.
 		note()
 		r := args[0].S
 		return []Val{vBool(sAnd(sCmp("<=", "55296", r), sCmp("<", r, "57344")))}, true
+	case "sync/atomic.LoadUint32", "sync/atomic.LoadInt32", "sync/atomic.LoadInt64", "sync/atomic.LoadUint64", "sync/atomic.LoadPointer":
+		fc.noteAssumption("sync/atomic operations are given their sequential meaning here (single goroutine); interleavings are the subject of the concurrency checks")
+		return []Val{st.deref(args[0], call.Pos(), exprStr(call.Args[0]))}, true
+	case "sync/atomic.StoreUint32", "sync/atomic.StoreInt32", "sync/atomic.StoreInt64", "sync/atomic.StoreUint64":
+		fc.noteAssumption("sync/atomic operations are given their sequential meaning here (single goroutine); interleavings are the subject of the concurrency checks")
+		st.storeThrough(args[0], args[1], call.Pos(), exprStr(call.Args[0]))
+		return nil, true
+	case "sync/atomic.CompareAndSwapUint32", "sync/atomic.CompareAndSwapInt32", "sync/atomic.CompareAndSwapInt64", "sync/atomic.CompareAndSwapUint64":
+		fc.noteAssumption("sync/atomic operations are given their sequential meaning here (single goroutine); interleavings are the subject of the concurrency checks")
+		cur := st.deref(args[0], call.Pos(), exprStr(call.Args[0]))
+		ok := st.define("cas", "Bool", sEq(cur.S, args[1].S))
+		nv := cur
+		nv.S = st.define("casv", "Int", sIte(ok, args[2].S, cur.S))
+		st.storeThrough(args[0], nv, call.Pos(), exprStr(call.Args[0]))
+		return []Val{vBool(ok)}, true
+	case "sync/atomic.AddInt64", "sync/atomic.AddInt32", "sync/atomic.AddUint32", "sync/atomic.AddUint64":
+		fc.noteAssumption("sync/atomic operations are given their sequential meaning here (single goroutine); interleavings are the subject of the concurrency checks")
+		cur := st.deref(args[0], call.Pos(), exprStr(call.Args[0]))
+		pt := args[0].T.Underlying().(*types.Pointer).Elem()
+		nv := st.arith("+", cur, args[1], pt, call.Pos(), exprStr(call))
+		st.storeThrough(args[0], nv, call.Pos(), exprStr(call.Args[0]))
+		return []Val{nv}, true
 	case "errors.New", "fmt.Errorf":
 		note()
 		e := fc.fresh("err", "Int")
